@@ -38,8 +38,47 @@ func (x *Xlat) typeFacts(v *Term, t types.Type) *Term {
 		return wfSlice(v)
 	case isUnsigned(t) && v.Sort == SInt:
 		return App(">=", SBool, v, IntLit(0))
+	case v.Sort == SRef && t != nil:
+		// dynamic type: references of different Go types never alias
+		if tag := x.typeTag(t); tag != nil {
+			return Or(Eq(v, TNull), Eq(App("dtype", SInt, v), tag))
+		}
 	}
 	return TTrue
+}
+
+// typeTag: a number identifying the Go type of the object a reference points to (pointer-to-struct and map types).
+func (x *Xlat) typeTag(t types.Type) *Term {
+	t = types.Unalias(x.tm.resolve(t))
+	var name string
+	switch u := t.Underlying().(type) {
+	case *types.Pointer:
+		if _, ok := types.Unalias(u.Elem()).Underlying().(*types.Struct); !ok {
+			return nil
+		}
+		name = "*" + typeName(u.Elem())
+	case *types.Map:
+		name = "map[" + x.tm.SortOf(u.Key()) + "]" + typeName(u.Elem()) + "/" + x.tm.SortOf(u.Elem())
+		if _, isStruct := types.Unalias(u.Elem()).Underlying().(*types.Struct); !isStruct {
+			name = "map[" + x.tm.SortOf(u.Key()) + "]" + x.tm.SortOf(u.Elem())
+			// maps whose element types share a sort but differ as Go types (e.g. two pointer types) keep separate tags
+			if _, isPtr := types.Unalias(u.Elem()).Underlying().(*types.Pointer); isPtr {
+				name += "/" + typeName(u.Elem())
+			}
+		}
+	default:
+		return nil
+	}
+	if x.typeTags == nil {
+		x.typeTags = map[string]int{}
+	}
+	id, ok := x.typeTags[name]
+	if !ok {
+		id = len(x.typeTags) + 1
+		x.typeTags[name] = id
+	}
+	x.ctx.DeclareFunc(&FuncDecl{Name: "dtype", Params: []Sort{SRef}, Ret: SInt})
+	return IntLit(int64(id))
 }
 
 func wfSlice(s *Term) *Term {
@@ -517,14 +556,14 @@ func (x *Xlat) builtin(st *State, fr *Frame, out *Outcomes, ce *ast.CallExpr, na
 			st.assume(Forall([]Bind{{"i!", SInt}}, Eq(lhs, x.tm.Zero(u.Elem())), []*Term{lhs}))
 			return []*Term{res}
 		case *types.Map:
-			m := x.allocRef(st, "map")
+			m := x.allocRef(st, "map", t)
 			x.initMap(st, m, u)
 			return []*Term{m}
 		}
 		x.unsupp(ce.Pos(), "make of %s", t)
 	case "new":
 		t := info.TypeOf(ce.Args[0])
-		r := x.allocRef(st, "new")
+		r := x.allocRef(st, "new", types.NewPointer(t))
 		if _, ok := types.Unalias(t).Underlying().(*types.Struct); ok {
 			x.store(st, out, PHeap{r, t, nil, t}, x.tm.Zero(t), ce.Pos())
 		} else {
